@@ -6,9 +6,11 @@ run (`Clvm.Gen.fTableNames`, `Clvm.Gen.chiaOpTable`).
 -/
 import ClvmModel.Interp.Machine
 import ClvmModel.Proto.Run
+import ClvmProofs.Lemmas.Interp.RuntimeLift
+import ClvmProofs.Lemmas.Interp.RuntimeLiftCrypto
 
 namespace Clvm.Props.C30
-open Clvm Clvm.Interp
+open Clvm Clvm.Interp Clvm.Alloc
 
 /-- the standard operator-name table: every name of `f_table.rs` at the opcode `ChiaDialect`
 gives to the same operator function -/
@@ -63,5 +65,279 @@ theorem op_agrees (cfg : Cfg) (extra : String → Option OpFn) (flags : Nat) (b 
   simp only [runtimeDialect, chiaOp, List.length_singleton, hbe, h1, hsn, h2, Nat.or_zero, hdis]
   simp
   cases coreOpByName cfg name <;> cases extra name <;> simp
+
+/-! ### whole runs
+
+The property quantifies over programs that "use only opcodes of the table (or opcodes both dialects
+treat as unknown) and no softfork guard".  Operator atoms are read from program trees, but `a` runs
+computed trees, so the condition is stated on the run: `InCommonDomain` replays the `ChiaDialect`
+run (`Lemmas/Interp/RuntimeLift.lean`: `inCommonDomain`, `commonRun`, `stepInDomain`) and checks at
+every `Apply` step that
+
+* the operator atom popped from the value stack is not `chiaOnly F` — an atom `ChiaDialect::op`
+  dispatches to a named function and `RuntimeDialect::op` to `op_unknown`: the two 4-byte secp
+  opcodes, opcode 48, and 62 / 63 / 64 / 65 when their enabling flag is in `F`
+  (`chiaOnly_one_byte`, `chiaOnly_four_bytes`, `chiaOnly_other`);
+* `apply_op` does not reach the guard entry (`entersGuard`: softfork keyword, cost operand within
+  budget and non-zero, arguments accepted by `parse_softfork_arguments`, i.e. a known extension).
+
+Everything else is inside: table operators, `q`, `a`, atoms of any length or representation both
+dialects treat as unknown, opcodes whose enabling flag is off, softfork forms with an unknown
+extension or malformed arguments. -/
+
+/-- the `ChiaDialect::new(F)` run of `program` stays in the common domain -/
+def InCommonDomain (cfg : Cfg) (extra : String → Option OpFn) (F fuel : Nat) (c0 : Ctr) (p env : Val)
+    (mc : Nat) : Bool :=
+  inCommonDomain cfg (chiaDialect cfg extra F) (fun o => !chiaOnly F o) fuel c0 p env mc
+
+/-- one-byte operator atoms outside the common domain: 48 (`coinid`), and 62 (`keccak256`),
+63 (`sha256tree`), 64 / 65 (secp) when the flag that enables them outside a guard is set -/
+theorem chiaOnly_one_byte (F : Nat) (b : UInt8) (inl : Bool) :
+    chiaOnly F (.atom [b] inl) =
+      (b.toNat == 48 || (b.toNat == 62 && hasFlag F Gen.FLAG_ENABLE_KECCAK_OPS_OUTSIDE_GUARD) ||
+       (b.toNat == 63 && hasFlag F Gen.FLAG_ENABLE_SHA256_TREE) ||
+       ((b.toNat == 64 || b.toNat == 65) && hasFlag F Gen.FLAG_ENABLE_SECP_OPS)) := by
+  have key : ∀ n, n < 256 →
+      ((lookupOp Gen.chiaOpTable n).bind (fun x => if (stdLookup n).isNone then some x.2 else none)) =
+        (if n = 48 then some 0 else if n = 62 then some Gen.FLAG_ENABLE_KECCAK_OPS_OUTSIDE_GUARD
+         else if n = 63 then some Gen.FLAG_ENABLE_SHA256_TREE
+         else if n = 64 ∨ n = 65 then some Gen.FLAG_ENABLE_SECP_OPS else none) ∧
+      (((lookupOp Gen.chiaOpTable n).bind (fun x => if (stdLookup n).isNone then some x.2 else none)).isSome →
+        fitsInSmallAtom [UInt8.ofNat n] = some n) := by
+    decide +kernel
+  have hk := key b.toNat (UInt8.toNat_lt b)
+  have hb : UInt8.ofNat b.toNat = b := by simp
+  rw [hb] at hk
+  obtain ⟨hk1, hk2⟩ := hk
+  have h0 : hasFlag F 0 = false := by simp [hasFlag]
+  simp only [chiaOnly, List.length_singleton, Nat.reduceBEq, Bool.false_eq_true, if_false,
+    bne_self_eq_false]
+  cases hsn : smallNumber (.atom [b] inl) with
+  | none =>
+    simp only
+    -- the atom is a heap atom that is not a canonical small integer: none of the listed bytes
+    cases inl with
+    | true => simp [smallNumber] at hsn
+    | false =>
+      simp only [smallNumber] at hsn
+      cases hl : lookupOp Gen.chiaOpTable b.toNat with
+      | none =>
+        rw [hl] at hk1
+        simp only [Option.bind_none] at hk1
+        split at hk1
+        · cases hk1
+        · split at hk1
+          · cases hk1
+          · split at hk1
+            · cases hk1
+            · split at hk1
+              · cases hk1
+              · rename_i a1 a2 a3 a4
+                simp only [not_or] at a4
+                simp [a1, a2, a3, a4.1, a4.2]
+      | some x =>
+        rw [hl] at hk1 hk2
+        simp only [Option.bind_some] at hk1 hk2
+        by_cases hn : (stdLookup b.toNat).isNone = true
+        · simp only [hn, if_true, Option.isSome_some, forall_const] at hk2
+          rw [hk2] at hsn; cases hsn
+        · simp only [hn, Bool.false_eq_true, if_false] at hk1
+          split at hk1
+          · cases hk1
+          · split at hk1
+            · cases hk1
+            · split at hk1
+              · cases hk1
+              · split at hk1
+                · cases hk1
+                · rename_i a1 a2 a3 a4
+                  simp only [not_or] at a4
+                  simp [a1, a2, a3, a4.1, a4.2]
+  | some op =>
+    have hop : op = b.toNat := by
+      cases inl
+      · exact fits_single hsn
+      · simp only [smallNumber, Option.some.injEq, beNat_single] at hsn; exact hsn.symm
+    subst hop
+    simp only
+    cases hl : lookupOp Gen.chiaOpTable b.toNat with
+    | none =>
+      rw [hl] at hk1
+      simp only [Option.bind_none] at hk1
+      split at hk1
+      · cases hk1
+      · split at hk1
+        · cases hk1
+        · split at hk1
+          · cases hk1
+          · split at hk1
+            · cases hk1
+            · rename_i a1 a2 a3 a4
+              simp only [not_or] at a4
+              simp [a1, a2, a3, a4.1, a4.2]
+    | some x =>
+      obtain ⟨name, req⟩ := x
+      rw [hl] at hk1
+      simp only [Option.bind_some] at hk1 ⊢
+      by_cases hn : (stdLookup b.toNat).isNone = true
+      · simp only [hn, if_true, Bool.and_true] at hk1 ⊢
+        split at hk1
+        · rename_i a1; cases hk1; simp [a1, h0]
+        · split at hk1
+          · rename_i a1 a2; cases hk1; simp [a2]; intro h; exact absurd h (by decide)
+          · split at hk1
+            · rename_i a1 a2 a3; cases hk1; simp [a3]; intro h; exact absurd h (by decide)
+            · split at hk1
+              · rename_i a1 a2 a3 a4
+                cases hk1
+                rcases a4 with a4 | a4 <;> simp [a4] <;> intro h <;> exact absurd h (by decide)
+              · cases hk1
+      · simp only [hn, Bool.false_eq_true, if_false, Bool.and_false] at hk1 ⊢
+        split at hk1
+        · cases hk1
+        · split at hk1
+          · cases hk1
+          · split at hk1
+            · cases hk1
+            · split at hk1
+              · cases hk1
+              · rename_i a1 a2 a3 a4
+                simp only [not_or] at a4
+                simp [a1, a2, a3, a4.1, a4.2]
+
+/-- four-byte operator atoms outside the common domain: the two secp opcodes -/
+theorem chiaOnly_four_bytes (F : Nat) (ob : Bytes) (inl : Bool) (h : ob.length = 4) :
+    chiaOnly F (.atom ob inl) = (Alloc.beNat ob == 0x13d61f00 || Alloc.beNat ob == 0x1c3a8f00) := by
+  simp only [chiaOnly, h, beq_self_eq_true, if_true]
+  have : Gen.chiaOp4Table = [(0x13d61f00, "op_secp256k1_verify"), (0x1c3a8f00, "op_secp256r1_verify")] := by
+    decide
+  rw [this]
+  simp only [List.find?_cons, List.find?_nil]
+  by_cases h1 : (0x13d61f00 == Alloc.beNat ob) = true
+  · have : (Alloc.beNat ob == 0x13d61f00) = true := by simp only [beq_iff_eq] at h1 ⊢; exact h1.symm
+    simp [h1, this]
+  · have h1' : (Alloc.beNat ob == 0x13d61f00) = false := by
+      simp only [beq_iff_eq] at h1 ⊢; simp only [beq_eq_false_iff_ne, ne_eq]; exact fun e => h1 e.symm
+    by_cases h2 : (0x1c3a8f00 == Alloc.beNat ob) = true
+    · have : (Alloc.beNat ob == 0x1c3a8f00) = true := by simp only [beq_iff_eq] at h2 ⊢; exact h2.symm
+      simp [h1, h2, this]
+    · have h2' : (Alloc.beNat ob == 0x1c3a8f00) = false := by
+        simp only [beq_iff_eq] at h2 ⊢; simp only [beq_eq_false_iff_ne, ne_eq]; exact fun e => h2 e.symm
+      simp [h1, h2, h1', h2']
+
+/-- every other operator atom (empty, 2, 3, 5 or more bytes) is in the common domain -/
+theorem chiaOnly_other (F : Nat) (ob : Bytes) (inl : Bool) (h4 : ob.length ≠ 4) (h1 : ob.length ≠ 1) :
+    chiaOnly F (.atom ob inl) = false := by
+  simp [chiaOnly, h4, h1]
+
+/-- **Whole runs.**  For every flag set `F` without `ENABLE_GC` and `DISABLE_OP`, every program,
+environment, budget and allocator state: if the `ChiaDialect::new(F)` run stays in the common domain,
+`run_program` under `RuntimeDialect::new(standard table, quote 1, apply 2, F)` is the same outcome —
+result, cost, error, allocator counters (the two machines go through identical states).
+`hex`: the operators outside the core table do not see that `ChiaDialect::new` removes `LIMITS`
+under `NEW_COST_MODEL` while `RuntimeDialect::new` keeps it (proved for the core operators:
+`coreOps_normFlags`; for `cryptoExtra`: `run_agrees_chia`; trivial when `F` lacks one of the two
+flags: `run_agrees_flags`). -/
+theorem run_agrees (cfg : Cfg) (extra : String → Option OpFn) (F : Nat)
+    (hgc : hasFlag F Gen.FLAG_ENABLE_GC = false) (hdis : hasFlag F Gen.FLAG_DISABLE_OP = false)
+    (hex : ExtraNorm extra F) (fuel : Nat) (c0 : Ctr) (p env : Val) (mc : Nat)
+    (hdom : InCommonDomain cfg extra F fuel c0 p env mc = true) :
+    runProgram cfg (runtimeDialect cfg extra standardOpMap 1 2 F) fuel c0 p env mc =
+      runProgram cfg (chiaDialect cfg extra F) fuel c0 p env mc :=
+  runProgram_common (runtime_chia_agree cfg extra F hgc hdis hex) fuel c0 p env mc hdom
+
+/-- no operator hypothesis at all when `F` does not combine `NEW_COST_MODEL` with `LIMITS` (both
+constructors then keep the same flag word) -/
+theorem run_agrees_flags (cfg : Cfg) (extra : String → Option OpFn) (F : Nat)
+    (hgc : hasFlag F Gen.FLAG_ENABLE_GC = false) (hdis : hasFlag F Gen.FLAG_DISABLE_OP = false)
+    (hnl : (hasFlag F Gen.FLAG_NEW_COST_MODEL && hasFlag F Gen.FLAG_LIMITS) = false)
+    (fuel : Nat) (c0 : Ctr) (p env : Val) (mc : Nat)
+    (hdom : InCommonDomain cfg extra F fuel c0 p env mc = true) :
+    runProgram cfg (runtimeDialect cfg extra standardOpMap 1 2 F) fuel c0 p env mc =
+      runProgram cfg (chiaDialect cfg extra F) fuel c0 p env mc :=
+  run_agrees cfg extra F hgc hdis
+    (extraNorm_of_normFlags_eq extra (by unfold normFlags; simp [hnl])) fuel c0 p env mc hdom
+
+/-- **The dialects the crate ships** (all operators, `extra = cryptoExtra`): every flag set without
+`ENABLE_GC` and `DISABLE_OP`, no hypothesis about the operators. -/
+theorem run_agrees_chia (cfg : Cfg) (F : Nat)
+    (hgc : hasFlag F Gen.FLAG_ENABLE_GC = false) (hdis : hasFlag F Gen.FLAG_DISABLE_OP = false)
+    (fuel : Nat) (c0 : Ctr) (p env : Val) (mc : Nat)
+    (hdom : InCommonDomain cfg cryptoExtra F fuel c0 p env mc = true) :
+    runProgram cfg (runtimeDialect cfg cryptoExtra standardOpMap 1 2 F) fuel c0 p env mc =
+      runProgram cfg (chiaDialect cfg cryptoExtra F) fuel c0 p env mc :=
+  run_agrees cfg cryptoExtra F hgc hdis (cryptoExtra_norm F) fuel c0 p env mc hdom
+
+/-! ### the hypotheses are satisfiable, the domain is not empty and not everything -/
+
+/-- `(c (0x4f (q . 1)) (+ (q . 2) (* (q . 3) (q . 5))))`: three table operators, `q`, and an opcode
+both dialects treat as unknown -/
+def sampleProgram : Val :=
+  Val.ofTree (.pair (.atom [4]) (.pair (.pair (.atom [0x4f]) (.pair (.pair (.atom [1]) (.atom [1])) (.atom [])))
+    (.pair (.pair (.atom [16]) (.pair (.pair (.atom [1]) (.atom [2]))
+      (.pair (.pair (.atom [18]) (.pair (.pair (.atom [1]) (.atom [3])) (.pair (.pair (.atom [1]) (.atom [5])) (.atom []))))
+        (.atom [])))) (.atom []))))
+
+/-- the sample run stays in the common domain … -/
+example : InCommonDomain { fastpath := true } cryptoExtra 0 100 (Ctr.new (2 ^ 32 - 1)) sampleProgram Val.nil 0 = true := by
+  decide +kernel
+
+/-- … and is a complete run: cost 2310, result `(() . 17)` (so the check above went through every
+step of it, not through an early failure) -/
+example :
+    (match runProgram { fastpath := true } (chiaDialect { fastpath := true } cryptoExtra 0) 100 (Ctr.new (2 ^ 32 - 1))
+        sampleProgram Val.nil 0 with
+      | some (.ok (cost, v, _)) => cost == 2310 && v == .pair Val.nil (.atom [17] true)
+      | _ => false) = true := by
+  decide +kernel
+
+/-- the same under a flag set with both `NEW_COST_MODEL` and `LIMITS` (the two constructors keep
+different flag words) and strict mode off -/
+example : InCommonDomain { fastpath := true } cryptoExtra (Gen.FLAG_NEW_COST_MODEL ||| Gen.FLAG_LIMITS) 100
+    (Ctr.new (2 ^ 32 - 1)) sampleProgram Val.nil 0 = true := by
+  decide +kernel
+
+/-- `(coinid)`: opcode 48 is outside the domain, and the two dialects do differ on it
+(`ChiaDialect`: an error of `op_coinid`; `RuntimeDialect`: `op_unknown` succeeds) -/
+def coinidProgram : Val := Val.ofTree (.pair (.atom [48]) (.atom []))
+
+example : InCommonDomain { fastpath := true } cryptoExtra 0 100 (Ctr.new (2 ^ 32 - 1)) coinidProgram Val.nil 0 = false := by
+  decide +kernel
+
+example :
+    (match runProgram { fastpath := true } (chiaDialect { fastpath := true } cryptoExtra 0) 100 (Ctr.new (2 ^ 32 - 1))
+        coinidProgram Val.nil 0,
+      runProgram { fastpath := true } (runtimeDialect { fastpath := true } cryptoExtra standardOpMap 1 2 0) 100
+        (Ctr.new (2 ^ 32 - 1)) coinidProgram Val.nil 0 with
+      | some (.error _), some (.ok _) => true
+      | _, _ => false) = true := by
+  decide +kernel
+
+/-- `(softfork (q . 100) (q . 0) (q . 1) (q . ()))`: a guard with the known extension 0 is outside the
+domain, and the two dialects differ (`ChiaDialect` runs the guard and fails its cost check;
+`RuntimeDialect` knows no extension and, in lenient mode, returns nil) -/
+def guardProgram : Val :=
+  Val.ofTree (.pair (.atom [36]) (.pair (.pair (.atom [1]) (.atom [100])) (.pair (.pair (.atom [1]) (.atom []))
+    (.pair (.pair (.atom [1]) (.atom [1])) (.pair (.pair (.atom [1]) (.atom [])) (.atom []))))))
+
+example : InCommonDomain { fastpath := true } cryptoExtra 0 100 (Ctr.new (2 ^ 32 - 1)) guardProgram Val.nil 0 = false := by
+  decide +kernel
+
+example :
+    (match runProgram { fastpath := true } (chiaDialect { fastpath := true } cryptoExtra 0) 100 (Ctr.new (2 ^ 32 - 1))
+        guardProgram Val.nil 0,
+      runProgram { fastpath := true } (runtimeDialect { fastpath := true } cryptoExtra standardOpMap 1 2 0) 100
+        (Ctr.new (2 ^ 32 - 1)) guardProgram Val.nil 0 with
+      | some (.error _), some (.ok _) => true
+      | _, _ => false) = true := by
+  decide +kernel
+
+/-- a softfork form with an unknown extension (5) is inside the domain -/
+def unknownGuardProgram : Val :=
+  Val.ofTree (.pair (.atom [36]) (.pair (.pair (.atom [1]) (.atom [100])) (.pair (.pair (.atom [1]) (.atom [5]))
+    (.pair (.pair (.atom [1]) (.atom [1])) (.pair (.pair (.atom [1]) (.atom [])) (.atom []))))))
+
+example : InCommonDomain { fastpath := true } cryptoExtra 0 100 (Ctr.new (2 ^ 32 - 1)) unknownGuardProgram Val.nil 0 = true := by
+  decide +kernel
 
 end Clvm.Props.C30
